@@ -154,7 +154,7 @@ def u1(res, tier, wd=None):
 def u2(prop, tier, seed, res, depth=None):
     """TLC-generated scripts replayed on the real engine, results validated by Trace_Lex"""
     q = tier == "quick"
-    depth = depth or (3 if q else 5)
+    depth = depth or (3 if q else 4)
     wd = core.workdir(f"{prop}-implu2-{tier}")
     def gen(t):
         conf, canon = t
